@@ -82,23 +82,47 @@ fn main() {
         "run" => std::fs::read_to_string(&cases_path).unwrap().lines().map(|s| s.to_string()).collect(),
         _ => { eprintln!("unknown mode"); std::process::exit(2); }
     };
-    // run in parallel over threads, keep order
+    // run in parallel over threads, keep order; every case gets a watchdog so a non-terminating case is reported
+    // as TIMEOUT instead of hanging the run (its thread is abandoned and dies with the process)
     let nthreads = std::thread::available_parallelism().map(|x| x.get()).unwrap_or(4).min(16);
     let chunk = (cases.len() + nthreads - 1) / nthreads.max(1);
+    let limit = std::time::Duration::from_secs(std::env::var("VERIF_CASE_TIMEOUT").ok().and_then(|v| v.parse().ok()).unwrap_or(20));
+    let id_owned = id.to_string();
     let mut results: Vec<Vec<String>> = Vec::new();
-    std::thread::scope(|s| {
-        let mut hs = Vec::new();
-        for part in cases.chunks(chunk.max(1)) {
-            hs.push(s.spawn(move || part.iter().map(|l| run_line(id, l)).collect::<Vec<String>>()));
-        }
-        for h in hs {
-            results.push(h.join().unwrap());
-        }
-    });
+    let mut handles = Vec::new();
+    for part in cases.chunks(chunk.max(1)) {
+        let part: Vec<String> = part.to_vec();
+        let idc = id_owned.clone();
+        handles.push(std::thread::spawn(move || {
+            let mut out = Vec::with_capacity(part.len());
+            for l in part {
+                let (tx, rx) = std::sync::mpsc::channel();
+                let idd = idc.clone();
+                let line = l.clone();
+                std::thread::Builder::new()
+                    .stack_size(64 << 20)
+                    .spawn(move || {
+                        let _ = tx.send(run_line(&idd, &line));
+                    })
+                    .unwrap();
+                out.push(match rx.recv_timeout(limit) {
+                    Ok(r) => r,
+                    Err(_) => "TIMEOUT".to_string(),
+                });
+            }
+            out
+        }));
+    }
+    for h in handles {
+        results.push(h.join().unwrap());
+    }
     let mut f = std::io::BufWriter::new(std::fs::File::create(&impl_path).unwrap());
     for part in results {
         for l in part {
             writeln!(f, "{}", l.replace('\n', "\\n")).unwrap();
         }
     }
+    drop(f);
+    // abandoned watchdog threads must not keep the process alive
+    std::process::exit(0);
 }
